@@ -321,3 +321,73 @@ Theorem C13_bootstrap_balanced :
   (forall s k s' tr, exec prog_bootstrap_with s k s' tr -> s' = s).
 Proof. exact bootstrap_balanced. Qed.
 Print Assumptions C13_bootstrap_balanced.
+
+(* ================= proof-only round: nestings of the scope programs; several subrequests in a row *)
+Require Import Verif.Proofs.C13_f Verif.Proofs.C13_g.
+
+(* balance is closed under sequencing, branching, try/finally, try/except, loops, procedure scopes ... *)
+Theorem C13_balanced_closed :
+  (forall a b, balanced a -> balanced b -> balanced (Seq a b)) /\
+  (forall a b, balanced a -> balanced b -> balanced (TryFinally a b)) /\
+  (forall al a h, balanced a -> balanced h -> balanced (TryExcept al a h)) /\
+  (forall a b, balanced a -> balanced b -> balanced (If a b)) /\
+  (forall a, balanced a -> balanced (Loop a)) /\
+  (forall a, balanced a -> balanced (Scope a)) /\
+  (forall t a body rel, acquires (Scope a) t -> releases rel -> balanced body ->
+     balanced (Seq (Scope a) (TryFinally body rel))).
+Proof. exact (conj bal_seq (conj bal_fin (conj bal_exc (conj bal_if (conj bal_loop (conj bal_scope bal_bracket)))))). Qed.
+Print Assumptions C13_balanced_closed.
+
+(* ... hence ARBITRARY nestings of the analysed acquire / release pairs (Configurator.begin/end, scripting.prepare /
+   closer, get_root / closer, paster.bootstrap / closer -- skeletons regenerated from the source on every run) around
+   any balanced body restore the thread-local stack on every path: every opaque call returning or raising, at any
+   depth of the nesting *)
+Theorem C13_scope_nesting_balanced : forall ws body,
+  (forall w, In w ws -> In w scope_wrappers) -> balanced body -> balanced (nest ws body).
+Proof. exact scope_nesting_balanced. Qed.
+Print Assumptions C13_scope_nesting_balanced.
+
+(* the bodies available: every balanced entry point *)
+Theorem C13_balanced_entry_points :
+  balanced prog_wsgi_call /\ balanced prog_subrequest /\ balanced prog_request_context_manual /\
+  balanced prog_prepare_with /\ balanced prog_bootstrap_with /\ balanced prog_exception_view /\
+  (forall p, In p cfg_programs -> balanced p).
+Proof. exact balanced_entry_points. Qed.
+Print Assumptions C13_balanced_entry_points.
+
+(* non-vacuity: a Configurator scope around a WSGI call followed by a loop of scripting environments inside which a
+   Configurator scope wraps a subrequest *)
+Example C13_nesting_example :
+  balanced (nest [(prog_cfg_begin, prog_cfg_end, tag_configurator)]
+              (Seq prog_wsgi_call
+                   (Loop (nest [(prog_prepare, prog_prepare_closer, tag_request_context);
+                                (prog_cfg_begin, prog_cfg_end, tag_configurator)] prog_subrequest)))).
+Proof. exact nesting_example. Qed.
+
+(* the segment predicate closed under concatenation composes without the exclusivity condition of the one-subrequest
+   proof; any number of subrequests started one after the other leave the request's own log, deques and counters
+   alone and add a sequence of judged segments *)
+Theorem C13_star_composition : forall l sc A (Q : list pev -> Prop),
+  (forall a b c, Rc l sc A (star Q) a b -> Rc l sc A (star Q) b c -> Rc l sc A (star Q) a c) /\
+  (forall srs, Forall (fun sr => pres (Rsub l Q) sr) srs -> pres (Rc l sc A (star Q)) (seq_all srs)).
+Proof. intros l sc A Q. split; [apply Rc_star_trans|apply many_subrequests_pres]. Qed.
+Print Assumptions C13_star_composition.
+
+(* two real subrequests of the interpreter (any valid scenario trees, with or without tweens) run one after the other
+   from any state: parent's deques and counters as before, only deeper events, and the new log is a sequence of
+   segments each satisfying the judge of its subrequest tree *)
+Theorem C13_two_subrequests_in_a_row : forall ev l sc1 tw1 sc2 tw2 st st' r,
+  valid_tree sc1 = true -> valid_tree sc2 = true ->
+  seq (run_request ev (l + 1) sc1 tw1) (run_request ev (l + 1) sc2 tw2) st = (st', r) ->
+  exists new, log st' = log st ++ new /\ rq st' = rq st /\ fq st' = fq st /\ nr st' = nr st /\ nf st' = nf st /\
+    Forall (fun e => (l + 1 <= e_lvl e)%N) new /\
+    star (fun seg => subP (l + 1) sc1 tw1 seg \/ subP (l + 1) sc2 tw2 seg) new.
+Proof. exact two_run_requests. Qed.
+Print Assumptions C13_two_subrequests_in_a_row.
+
+Example C13_two_subrequests_example :
+  let sc := Scn false [mkFault P_VIEW K_PLAIN 0] [mkReg P_NEWREQ 2 0] NoSub in
+  valid_tree sc = true /\
+  let '(st', r) := seq (run_request 1 1 sc true) (run_request 1 1 sc false) (init_state [0%N]) in
+  stk st' = [0%N] /\ length (filter (is_pt P_FIN_CB) (log st')) = 2%nat.
+Proof. vm_compute. repeat split; reflexivity. Qed.
